@@ -60,6 +60,10 @@ pub fn main() {
                 after.push(all(&state));
                 rt_after.push(NAMES.iter().map(|n| rt.get_reg(n)).collect::<Vec<u32>>());
                 if k > 0 && (i + 1) % k == 0 {
+                    // all fourteen scratch registers hold distinct non-zero values at the snapshot point
+                    for t in 0..14u8 {
+                        state.set_reg(RegName::Temp(t), (((i as u32 + 1) * 0x1111) ^ ((t as u32 + 1) * 0x010203)) & 0xFFFFFF | 1);
+                    }
                     let regs = collect_registers(&state);
                     let blob = pack_registers(&regs);
                     let mut fresh = LlamaState::new();
@@ -71,7 +75,9 @@ pub fn main() {
                                 }
                             }
                             apply_registers(&mut fresh, &un);
-                            rts.push(json!({"at": i, "blob": hex(&blob), "fresh": all(&fresh)}));
+                            let ts: Vec<u32> = (0..14u8).map(|t| state.get_reg(RegName::Temp(t))).collect();
+                            let tf: Vec<u32> = (0..14u8).map(|t| fresh.get_reg(RegName::Temp(t))).collect();
+                            rts.push(json!({"at": i, "blob": hex(&blob), "fresh": all(&fresh), "temps_state": ts, "temps_fresh": tf}));
                         }
                         Err(e) => rts.push(json!({"at": i, "error": e.to_string()})),
                     }
